@@ -13,8 +13,11 @@
 
    S is the independent reading of the same path in plain Go ([go_path]): `Field n` selects the exported field or
    the zero-argument method whose name with the first letter lower-cased is n (on a map: the entry n), `Key k` the
-   map entry, `Idx i` the slice element; pointers and interfaces are transparent; nil / missing / out of range /
-   unexported reach nothing, which prints "".
+   map entry, `Idx c i` the slice element number i, where i is ANY integer: the value of whatever stands between
+   the brackets (a literal `xs[2]`, `xs[-1]`, or an expression computed at run time from the page data, `xs[d.pos]`,
+   `xs[xs.length - 1]`, `xs[n - 2]`; c tells which, and matters to M only); pointers and interfaces are transparent;
+   nil / missing / out of range on either side (below 0, at or above the length) / unexported reach nothing, which
+   prints "".
 
    Definitions only; proofs are in Proofs/ConvertProofs.v. *)
 From PV Require Import Base.Bytes Base.Escape.
@@ -41,7 +44,17 @@ Inductive gv : Type :=
 | GFunc (sig : bytes) (r : gv)           (* non-nil func() T value: text of its type, result *)
 | GChan.
 
-Inductive step := Field (n : bytes) | Key (k : bytes) | Idx (i : nat).
+(* [Idx computed i]: the bracket index denotes the integer i. computed = false: it is written as a literal (which
+   reaches `index` as a Go int when i >= 0 and, compiled to `(__op__sub 1)`, as a pugjs Number when i < 0);
+   computed = true: it is an expression evaluated at run time (a member of the page data, a `.length`, a
+   difference or sum of such), which reaches `index` as a pugjs Number. *)
+Inductive step := Field (n : bytes) | Key (k : bytes) | Idx (computed : bool) (i : Z).
+
+(* element i of a list, for any integer i: nothing below 0 and nothing at or above the length
+   (the range test comes first: no unary number is ever built from a large index) *)
+Definition in_range (i : Z) (len : nat) : bool := Z.leb 0 i && Z.ltb i (Z.of_nat len).
+Definition nth_z {A} (l : list A) (i : Z) : option A :=
+  if in_range i (length l) then nth_error l (Z.to_nat i) else None.
 
 (* ------------------------------------------------------------------ names: lowerFirst, upperFirst, strings.Title,
    strings.NewReplacer("id","ID","url","URL","api","API")  — on ASCII (dom_C11 restricts names to ASCII) *)
@@ -197,17 +210,22 @@ Definition eval_field (ov : option val) (n : bytes) : res (option val) :=
   end.
 
 (* index (tpl_funcs.go) with one index; the result goes through evalCall's convert (identity on objects,
-   byte -> Number). An invalid item yields Nil. *)
-Definition int_value_key : bytes := B "<int Value>".   (* reflect.Value.String() of an int index *)
+   byte -> Number). An invalid item yields Nil. The index arrives as a Go int (a literal >= 0) or as a pugjs Number
+   (everything else: a Number becomes a float64, and x = int64(float)); on a slice / array / string
+   `x < 0 || x >= Len` yields Nil for both. On a Map the index is used as a key through reflect.Value.String(). *)
+Definition int_value_key : bytes := B "<int Value>".       (* reflect.Value.String() of an int index *)
+Definition float_value_key : bytes := B "<float64 Value>". (* ... of a Number index *)
+Definition index_key (computed : bool) (i : Z) : bytes :=
+  if computed || Z.ltb i 0 then float_value_key else int_value_key.
 
-Definition eval_idx (ov : option val) (i : nat) : res (option val) :=
+Definition eval_idx (ov : option val) (computed : bool) (i : Z) : res (option val) :=
   match ov with
   | None => ROk (Some VNil)
   | Some v =>
     match v with
-    | VArr l => ROk (Some (match nth_error l i with Some x => x | None => VNil end))
-    | VMap items => ROk (Some (match lookup int_value_key items with Some x => x | None => VNil end))
-    | VStr s => ROk (Some (match nth_error s i with Some c => VNum (Z.of_N (N_of_ascii c)) | None => VNil end))
+    | VArr l => ROk (Some (match nth_z l i with Some x => x | None => VNil end))
+    | VMap items => ROk (Some (match lookup (index_key computed i) items with Some x => x | None => VNil end))
+    | VStr s => ROk (Some (match nth_z s i with Some c => VNum (Z.of_N (N_of_ascii c)) | None => VNil end))
     | VNil => ROk (Some VNil)
     | VNum _ | VBool _ | VFunc _ _ => REr
     | VOpaque => RUnmod
@@ -230,7 +248,7 @@ Definition eval_step (ov : option val) (s : step) : res (option val) :=
   match s with
   | Field n => eval_field ov n
   | Key k => eval_key ov k
-  | Idx i => eval_idx ov i
+  | Idx c i => eval_idx ov c i
   end.
 
 Fixpoint eval_steps (ov : option val) (p : list step) : res (option val) :=
@@ -284,7 +302,7 @@ Definition text_of (v : val) : option bytes :=
   end.
 
 Definition is_field (s : step) : bool := match s with Field _ => true | _ => false end.
-Definition step_name (s : step) : bytes := match s with Field n => n | Key k => k | Idx _ => [] end.
+Definition step_name (s : step) : bytes := match s with Field n => n | Key k => k | Idx _ _ => [] end.
 
 (* printValue of the invalid value: fmt.Fprint(w, "ERR", node, v) *)
 Definition err_text (p : list step) : bytes :=
@@ -373,7 +391,7 @@ Definition go_step (g : gv) (s : step) : option gv :=
   | Field n, GStruct _ _ _ => option_map member_value (go_member g n)
   | Field n, GMap _ => option_map member_value (go_member g n)
   | Key k, GMap _ => option_map member_value (go_member g k)
-  | Idx i, GSlice l => nth_error l i
+  | Idx _ i, GSlice l => nth_z l i
   | _, _ => None
   end.
 
@@ -421,7 +439,8 @@ Definition kind_ok (g : gv) (s : step) : bool :=
   | Field _, (GStruct _ _ _ | GMap _ | GMapNil | GNil | GInt _ | GFloat _ | GBool _ | GChan) => true
   | Field n, GStr _ => negb (mem n string_members)
   | Key _, (GMap _ | GMapNil | GNil | GChan) => true
-  | Idx _, (GSlice _ | GSliceNil | GNil | GChan) => true
+  | Idx _ _, (GSlice _ | GSliceNil | GNil | GChan) => true
+  | Idx _ i, GStr s => negb (in_range i (length s))     (* out of range on a string: nothing, like on a list *)
   | _, _ => false
   end.
 
